@@ -61,7 +61,7 @@ func c13Admit(c c13Case) (admit bool, target int, why string) {
 			return false, i, "inbound connection in progress"
 		case "est-in", "est-out":
 			return false, i, "session Established"
-		case "held-down":
+		case "held-down", "held-down-2":
 			return false, i, "peer held down"
 		}
 		return true, i, "configured peer, " + p.State
@@ -117,7 +117,48 @@ func c13Prop(t *testing.T, r *hx.Run) func(c c13Case) hx.Verdict {
 				c    *memnet.Conn
 			}
 			var ests []estConn
+			// states that take virtual time to prepare come first, so that they
+			// do not outlast the other peers' hold-downs and sessions
+			order := []int{}
 			for i, p := range c.Peers {
+				if p.State == "held-down-2" {
+					order = append(order, i)
+				}
+			}
+			for i, p := range c.Peers {
+				if p.State != "held-down-2" {
+					order = append(order, i)
+				}
+			}
+			// second-episode hold-downs: all first errors together, one wait, all second errors
+			bad := wire.Keepalive()
+			bad[0] = 0
+			anyTwo := false
+			for round := 0; round < 2; round++ {
+				for i, p := range c.Peers {
+					if p.State != "held-down-2" {
+						continue
+					}
+					anyTwo = true
+					sp := c13Spec(p, i)
+					cn := w.Inbound(p.Remote, world.LocalFor(sp))
+					w.Settle()
+					if len(cn.Snapshot().Bytes()) == 0 {
+						fail("setup-admission", "preparing state held-down-2 (round %d): inbound connection of peer %s was not served", round, p.Remote)
+						return
+					}
+					cn.RemoteSend(bad, nil)
+					w.Settle()
+				}
+				if round == 0 && anyTwo {
+					w.Advance(61 * time.Second) // sit out the first hold-down (60 s)
+				}
+			}
+			for _, i := range order {
+				p := c.Peers[i]
+				if p.State == "held-down-2" {
+					continue
+				}
 				sp := c13Spec(p, i)
 				dst := world.LocalFor(sp)
 				switch p.State {
@@ -135,8 +176,6 @@ func c13Prop(t *testing.T, r *hx.Run) func(c c13Case) hx.Verdict {
 						world.Handshake(w, sp, cn, 90, 0x0a000063+uint32(i))
 						ests = append(ests, estConn{i, cn})
 					case "held-down":
-						bad := wire.Keepalive()
-						bad[0] = 0
 						cn.RemoteSend(bad, nil) // Connection Not Synchronized: a protocol error
 					}
 					w.Settle()
@@ -270,7 +309,7 @@ func genC13(rt *rapid.T) c13Case {
 				p.Local = pick(rt, "local6", "2001:db8::1", "2001:db8:1::1")
 			}
 		}
-		p.State = pick(rt, "state", "fresh", "fresh", "opensent", "openconfirm", "est-in", "est-out", "held-down", "deleted", "readded")
+		p.State = pick(rt, "state", "fresh", "fresh", "opensent", "openconfirm", "est-in", "est-out", "held-down", "held-down-2", "deleted", "readded")
 		if p.State == "est-out" && p.Passive {
 			p.Passive = false
 		}
